@@ -18,7 +18,7 @@ type srvCase struct {
 // ---- C20 ----
 
 func genC20(t *rapid.T) srvCase {
-	ops := genSops(t, []string{"attach", "attach", "detach", "send", "send", "send", "send", "send", "ack", "clear", "preinit"}, 3, 4, 14)
+	ops := genSops(t, []string{"attach", "attach", "detach", "send", "send", "send", "send", "send", "ack", "clear", "preinit", "anon"}, 3, 4, 14)
 	// most histories start with an established pair so that sends are applicable
 	if rapid.IntRange(0, 4).Draw(t, "prefix") != 0 {
 		a := rapid.IntRange(0, 2).Draw(t, "a")
@@ -29,9 +29,9 @@ func genC20(t *rapid.T) srvCase {
 	var out []sop
 	for _, op := range ops {
 		out = append(out, op)
-		if op.Op == "send" && op.Kind == "honest" && rapid.IntRange(0, 2).Draw(t, "follow") == 0 {
+		if op.Op == "send" && honestKind(op.Kind) && rapid.IntRange(0, 2).Draw(t, "follow") == 0 {
 			out = append(out, sop{Op: "send", P: op.P, Q: op.Q, Epoch: "current", Reuse: true,
-				Kind: rapid.SampledFrom([]string{"tampered-body", "tampered-sig", "other-signer", "other-signer-with-key", "unsigned", "other-context", "other-context-verified"}).Draw(t, "fkind")})
+				Kind: rapid.SampledFrom([]string{"tampered-body", "tampered-sig", "other-signer", "other-signer-with-key", "unsigned", "other-context", "other-context-verified", "tampered-tail-large"}).Draw(t, "fkind")})
 		}
 	}
 	return srvCase{Ops: out}
@@ -72,6 +72,11 @@ func checkC20(c srvCase) (o vstat.Outcome) {
 				return
 			}
 		}
+	}
+	if t.classes["unauthenticated-call-accepted"] {
+		o.V = vstat.Viol("unauthenticated-call-accepted", "after %s: a Session call without an authenticated stream identity was not refused (or was sent session events)", t.history())
+		t.teardown()
+		return
 	}
 	if t.classes["preinit-not-rejected"] {
 		o.V = vstat.Viol("request-before-init-accepted", "a call whose first request was not Init did not end with an error")
